@@ -87,6 +87,19 @@ REGISTRY = {
         'assumptions': ['payload bytes are 0..255', 'names are compared only when ASCII; rotation angles within float tolerance and away from gimbal lock (|pitch| < 1.4 rad)'],
         'trusted': ['modelled, not verified: bytes::Buf panic conditions, nalgebra euler conversions, UTF-8 lossy conversion, uuid::from_slice on 16 bytes'],
     },
+    'C18': {
+        'needs_binaries': True,
+        'rule': 'the real glonax-input modules (joystick.rs, gamepad.rs, input.rs included by #[path]) per stage composition: 4 control modes x 8 interlock states x engine requests {0,900,1000,2000,2100} x Xbox reverse flags x axis numbers x the full i16 value range (thorough; boundaries of every deadband/half-scale threshold + a 1/61 grid in quick) x button numbers 0..12,255 with values {0,1,2,-1,-32768} x init-flag records; new interlock state and produced object compared with the extracted model; C18 predicate evaluated on the real output; '
+                'the real glonaxctl against a stub daemon: 12 toggle sub-commands x 18 case variants of the six words + rejected words x compatible / major- / minor-incompatible daemon versions (bytes received by the stub); the real glonax-input binary fed records through a FIFO against the stub (failsafe flag in its session frame, only Motion/Engine frames, start-up lock); non-trivial = an object was produced; distinct by case text',
+        'exhaustive': {'quick': False, 'thorough': True},
+        'level_text': 'Theorem C18 proves for EVERY control mode, EVERY interlock state satisfying the invariant and EVERY record of the four joystick types (any number, full i16 range): no crash; while the motion lock is engaged only stop / resume / neutral (and engine requests) are produced; pressing Abort yields stop-all and engages the lock; produced values are zero or beyond the per-axis deadband and at most half scale in the limited directions while limiting is on; engine requests are shutdown or within 900..2100 rpm; the invariant is preserved - hence (C18_sequences) along event sequences of ANY length; C18_start_locked, C18_cli_true / C18_cli_false (iff for the six words in any letter case). '
+                      'The model reflects fix 5ee3993. Tied to the real modules by (in thorough) exhaustive execution over state x event, and to the real binaries as black boxes.',
+        'level_note': 'record types other than the four the Linux joystick interface produces hit unimplemented!() and are outside the domain. clap argument parsing and the to_lowercase of non-ASCII words are exercised, not modelled. glonax-input cannot be told to drop the failsafe flag (the clap flag defaults to true). Trusted: kernel, extraction, drv.ml, harness (stub daemon).',
+        'technique': 'Rocq proof (case analysis over scancodes with euclidean-division lia; invariant => all sequences) + exhaustive per-stage correspondence + black-box runs of glonaxctl / glonax-input',
+        'explanation': 'five theorems in Properties/C18.v',
+        'assumptions': ['records are 8-byte js_event structs of type 1, 2, 0x81, 0x82'],
+        'trusted': ['modelled, not verified: i16 arithmetic (/ truncates toward zero, saturating_neg), clap, the stub daemon in the harness'],
+    },
     'C20': {
         'rule': 'real NetworkAuthority::{new,setup,on_tick,recv} on the emulated bus: both networks of contrib/etc/glonax.conf loaded by the real glonax::from_file into the server\'s real Config (#[path]) and started; 1.2k (quick) / 12k (thorough) generated configurations: all 256 own addresses, NAME field boundaries and random values, driver lists of 0..5 entries drawn from the 7 known and unknown (vendor, product) pairs with/without source-address override and timeout; '
                 'events: start-up claim, first cycle (delayed per-driver setup), requests for address claim / software id / time-date / foreign groups to own, other and global destinations (also with DLC < 3), another cycle; frames on the bus compared with the extracted model; C20 predicate (claim = J1939-81 bit layout, replies exactly when specified, setup requests from exactly the known entries in order with destination = unit and source = daemon/override) evaluated on the real frames; non-trivial = some frame was sent; distinct by case text',
